@@ -3,7 +3,7 @@
 
 def run(ctx):
     ctx.regen_go2lean()
-    ctx.lean_obligations(["SV.Props.C06", "SV.Props.C06b", "SV.Props.C06c", "SV.Props.C06gen", "SV.Props.C06d"], drivers=["svdriver_c06"])
+    ctx.lean_obligations(["SV.Props.C06", "SV.Props.C06b", "SV.Props.C06c", "SV.Props.C06gen", "SV.Props.C06d", "SV.Props.C06gen2"], drivers=["svdriver_c06"])
     quick = ctx.tier == "quick"
     b = ctx.go_test_binary("fs/remote", "h_remote")
     if b:
